@@ -1,3 +1,5 @@
 import TaskctlVerif.Model.Graph
 import TaskctlVerif.Proofs.Graph
 import TaskctlVerif.Props.C05
+import TaskctlVerif.Model.Sched
+import TaskctlVerif.Proofs.Sched
